@@ -1,6 +1,8 @@
 import TnVerif.Lemmas.Assign
 import TnVerif.Props.C02
 import TnVerif.Props.C01
+import TnVerif.Props.C03
+import TnVerif.Lemmas.AssignInts
 /-!
 # C11 — assignment into a compressed tensor equals assignment into the dense array
 
@@ -487,9 +489,192 @@ theorem setitem_dense (t : Tensor R) (ht : t.WF) (key key1 : List RawItem) (item
       · rw [this, hm, if_pos rfl, C01.roundtrip _ x hfull_ne _ hin]
       · rw [this, hm]; simp
 
--- NOT YET PROVED (full statements):
---  * compressed values under keys WITH integers (C03.getitem_tensor for the singleton modes inserted at the integer positions);
---  * `sels.length = t.length` follows from `processKey`/`normKey`/`normAKey` succeeding (keys of an assignment contain no None);
---    it is a hypothesis of `setitem_scalar` and is validated on every correspondence run.
+-- (the two statements formerly listed here as NOT YET PROVED are `setitem_tensor_ints` and `setitem_sels_length` below)
+
+/-! ### keys with integers, and the error cases -/
+
+omit [CommRing R] in
+/-- **one selection per mode**: when `_process_key`, the bounds normalisation and the assignment-key check succeed, the key
+    has exactly one entry per mode of `t` (the hypothesis `hl` of `setitem_scalar`, `setitem_tensor`, `setitem_dense`) -/
+theorem setitem_sels_length (t : Tensor R) (key key1 : List RawItem) (items : List Item) (sels : List Sel)
+    (h1 : processKey t.length key = .ok key1) (h2 : normKey key1 t.shape = .ok items) (h3 : normAKey items = .ok sels) :
+    sels.length = t.length := by
+  obtain ⟨a1, a2, _⟩ := asgi_normAKey items sels h3
+  obtain ⟨c, _⟩ := C03.getitem_fits t key key1 items h1 h2
+  omega
+
+/-- **`t[key] = v` for a compressed value `v`, keys with integers included**: `v` has one mode per SLICE entry of the key
+    (`v.shape = selShape sels`); the routine inserts a singleton mode at every integer position (`tn.unsqueeze(value,
+    int_dims)`, i.e. `v[…, None, …]`) and then embeds.  Afterwards every selected entry holds `v`'s entry at its position
+    inside the region with the integer positions dropped, and every other entry is unchanged — whatever the formats
+    of `t` and `v`. -/
+theorem setitem_tensor_ints (t v : Tensor R) (ht : t.WF) (hv : v.WF) (key key1 : List RawItem) (items : List Item)
+    (sels : List Sel)
+    (h1 : processKey t.length key = .ok key1) (h2 : normKey key1 t.shape = .ok items) (h3 : normAKey items = .ok sels)
+    (hvs : v.shape = selShape sels) (hnz : (sels.map (·.count)).any (· == 0) = false) :
+    ∃ r, t.setitem key (.tensor v) = .ok r ∧
+      ∀ idx, idx.length = t.length → r.dense idx =
+        if allMem sels idx then v.dense (keepShape (sels.map (·.isInt)) (posIdx sels idx)) else t.dense idx := by
+  have hl := setitem_sels_length t key key1 items sels h1 h2 h3
+  by_cases hni : sels.any (·.isInt) = false
+  · obtain ⟨r, e, d⟩ := setitem_tensor t v ht hv key key1 items sels h1 h2 h3 hl hni hvs hnz
+    refine ⟨r, e, ?_⟩
+    intro idx hi
+    rw [d idx hi, asgi_keepShape_noInt sels _ hni (by rw [asgi_posIdx_length sels idx (by rw [hl, hi])])]
+  · have hni' : sels.any (·.isInt) = true := by simpa using hni
+    obtain ⟨_, _, hcnt⟩ := asgi_normAKey items sels h3
+    -- the unsqueezed value
+    have hc : skCons (uqSK (sels.map (·.isInt))) = v.length := by
+      rw [asgi_skCons, ← hvs, shape_length]
+    obtain ⟨_, b⟩ := C03.getitem_simple v hv (uqSK (sels.map (·.isInt))) hc (sqops_skOK_uq _ _)
+    rw [sqops_skShape_uq, hvs, asgi_insOnes sels hcnt] at b
+    have hne : sels.map (·.count) ≠ [] := by
+      intro h
+      have : sels.length = 0 := by simpa using congrArg List.length h
+      rw [hl] at this
+      cases t with
+      | nil => simp [Tensor.WF] at ht
+      | cons _ _ => simp at this
+    obtain ⟨v', e', w', sh', d'⟩ := b hne
+    rw [← asgi_unsqueezeKey] at e'
+    have hv'l : v'.length = t.length := by
+      rw [← shape_length, sh', List.length_map, hl]
+    have hvd : ∀ idx, v'.decompAll.dense idx = v'.dense idx := fun idx => C01.decompress_dense v' idx
+    have hvdl : v'.decompAll.length = t.length := by simp [Tensor.decompAll, hv'l]
+    have hfin : ∀ idx, idx.length = t.length → v'.dense (posIdx sels idx) =
+        v.dense (keepShape (sels.map (·.isInt)) (posIdx sels idx)) := by
+      intro idx hi
+      rw [d' _ (by rw [asgi_posIdx_length sels idx (by rw [hl, hi]), hl, hv'l]), sqops_skSrc_uq]
+    by_cases hf : t.any (fun m => m.U.isSome) = true
+    · refine ⟨(t.decompAll.sub (restrictT sels t.decompAll)).add (embedT sels t.shape v'.decompAll), ?_, ?_⟩
+      · simp [Tensor.setitem, h1, h2, h3, bind, Except.bind, hnz, hf, hni', hvs, e', pure, Except.pure]
+      · intro idx hi
+        have hlen : t.decompAll.length = t.length := by simp [Tensor.decompAll]
+        have := assign_tensor t.decompAll v'.decompAll sels (WF_decompAll t ht) (decomp_noFac t) (by rw [hl, hlen])
+          (WF_decompAll v' w') (decomp_noFac v') (by rw [hvdl, hlen]) idx (by rw [hi, hlen])
+        rw [shape_decompAll] at this
+        rw [this, hvd, C01.decompress_dense, hfin idx hi]
+    · have hf' : t.any (fun m => m.U.isSome) = false := by simpa using hf
+      have hn : noFac t := by
+        intro m hm
+        have := List.any_eq_false.mp hf' m hm
+        cases hU : m.U with
+        | none => rfl
+        | some U => simp [hU] at this
+      refine ⟨(t.sub (restrictT sels t)).add (embedT sels t.shape v'.decompAll), ?_, ?_⟩
+      · simp [Tensor.setitem, h1, h2, h3, bind, Except.bind, hnz, hf', hni', hvs, e', pure, Except.pure]
+      · intro idx hi
+        rw [assign_tensor t v'.decompAll sels ht hn hl (WF_decompAll v' w') (decomp_noFac v') hvdl idx hi, hvd, hfin idx hi]
+
+/-- an assignment that selects nothing (some slice of the key is empty) returns `t` itself, whatever the (shape-correct) value -/
+theorem setitem_empty (t v : Tensor R) (key key1 : List RawItem) (items : List Item) (sels : List Sel)
+    (h1 : processKey t.length key = .ok key1) (h2 : normKey key1 t.shape = .ok items) (h3 : normAKey items = .ok sels)
+    (hvs : v.shape = selShape sels) (hz : (sels.map (·.count)).any (· == 0) = true) :
+    t.setitem key (.tensor v) = .ok t := by
+  simp [Tensor.setitem, h1, h2, h3, bind, Except.bind, hz, hvs, pure, Except.pure]
+
+/-- **when does `t[key] = v` raise** (key accepted, `v` a compressed tensor): exactly when the shape of `v` differs from the
+    selected shape (the sizes of the slice entries of the key; no broadcasting is allowed), and the error is the shape
+    mismatch.  An error means that no new tensor is produced: `t` is left as it was. -/
+theorem setitem_tensor_error_iff (t v : Tensor R) (ht : t.WF) (hv : v.WF) (key key1 : List RawItem) (items : List Item)
+    (sels : List Sel)
+    (h1 : processKey t.length key = .ok key1) (h2 : normKey key1 t.shape = .ok items) (h3 : normAKey items = .ok sels) :
+    ((∃ e, t.setitem key (.tensor v) = .error e) ↔ v.shape ≠ selShape sels) ∧
+    (v.shape ≠ selShape sels → t.setitem key (.tensor v) = .error .lenMismatch) := by
+  have hmis : v.shape ≠ selShape sels → t.setitem key (.tensor v) = .error .lenMismatch := by
+    intro hne
+    simp [Tensor.setitem, h1, h2, h3, bind, Except.bind, hne, throw, throwThe, MonadExceptOf.throw]
+  refine ⟨⟨?_, fun hne => ⟨_, hmis hne⟩⟩, hmis⟩
+  intro ⟨e, he⟩ hvs
+  by_cases hz : (sels.map (·.count)).any (· == 0) = true
+  · rw [setitem_empty t v key key1 items sels h1 h2 h3 hvs hz] at he; cases he
+  · obtain ⟨r, hr, _⟩ := setitem_tensor_ints t v ht hv key key1 items sels h1 h2 h3 hvs (by simpa using hz)
+    rw [hr] at he; cases he
+
+/-- **when does `t[key] = x` raise** (key accepted, `x` a dense array of shape `sh`): exactly when `sh` differs from the
+    selected shape -/
+theorem setitem_dense_error_iff (t : Tensor R) (ht : t.WF) (key key1 : List RawItem) (items : List Item) (sels : List Sel)
+    (sh : List Nat) (x : Nat → R)
+    (h1 : processKey t.length key = .ok key1) (h2 : normKey key1 t.shape = .ok items) (h3 : normAKey items = .ok sels) :
+    ((∃ e, t.setitem key (.dense sh x) = .error e) ↔ sh ≠ selShape sels) ∧
+    (sh ≠ selShape sels → t.setitem key (.dense sh x) = .error .lenMismatch) := by
+  have hl := setitem_sels_length t key key1 items sels h1 h2 h3
+  have hmis : sh ≠ selShape sels → t.setitem key (.dense sh x) = .error .lenMismatch := by
+    intro hne
+    simp [Tensor.setitem, h1, h2, h3, bind, Except.bind, hne, throw, throwThe, MonadExceptOf.throw]
+  refine ⟨⟨?_, fun hne => ⟨_, hmis hne⟩⟩, hmis⟩
+  intro ⟨e, he⟩ hvs
+  subst hvs
+  by_cases hz : (sels.map (·.count)).any (· == 0) = true
+  · have : t.setitem key (.dense (selShape sels) x) = .ok t := by
+      simp [Tensor.setitem, h1, h2, h3, bind, Except.bind, hz, pure, Except.pure]
+    rw [this] at he; cases he
+  · obtain ⟨r, hr, _⟩ := setitem_dense t ht key key1 items sels x h1 h2 h3 hl (by simpa using hz)
+    rw [hr] at he; cases he
+
+/-- a scalar assignment under an accepted key never raises -/
+theorem setitem_scalar_ok (t : Tensor R) (ht : t.WF) (key key1 : List RawItem) (items : List Item) (sels : List Sel) (c : R)
+    (h1 : processKey t.length key = .ok key1) (h2 : normKey key1 t.shape = .ok items) (h3 : normAKey items = .ok sels) :
+    ∃ r, t.setitem key (.scalar c) = .ok r :=
+  let ⟨r, hr, _⟩ := setitem_scalar t ht key key1 items sels c h1 h2 h3 (setitem_sels_length t key key1 items sels h1 h2 h3)
+  ⟨r, hr⟩
+
+omit [CommRing R] in
+/-- **key errors**: whatever the value, an assignment raises the error of `_process_key` (second Ellipsis, too many entries),
+    of the bounds normalisation (out-of-range integer, non-positive step) or of the assignment-key check (`None` or an
+    index array in the key), and then produces no tensor -/
+theorem setitem_key_error [Zero R] [One R] [Add R] [Mul R] [Neg R] (t : Tensor R) (key : List RawItem) (value : AValue R) (e : IdxErr) :
+    (processKey t.length key = .error e → t.setitem key value = .error e) ∧
+    (∀ key1, processKey t.length key = .ok key1 → normKey key1 t.shape = .error e → t.setitem key value = .error e) ∧
+    (∀ key1 items, processKey t.length key = .ok key1 → normKey key1 t.shape = .ok items → normAKey items = .error e →
+      t.setitem key value = .error e) := by
+  refine ⟨?_, ?_, ?_⟩
+  · intro h; simp [Tensor.setitem, h, bind, Except.bind]
+  · intro key1 h1 h; simp [Tensor.setitem, h1, h, bind, Except.bind]
+  · intro key1 items h1 h2 h; simp [Tensor.setitem, h1, h2, h, bind, Except.bind]
+
+omit [CommRing R] in
+/-- an assignment either raises or returns a tensor, never both: an error leaves no result behind -/
+theorem setitem_error_no_result [Zero R] [One R] [Add R] [Mul R] [Neg R] (t : Tensor R) (key : List RawItem) (value : AValue R)
+    (e : IdxErr) (h : t.setitem key value = .error e) : ¬ ∃ r, t.setitem key value = .ok r := by
+  intro ⟨r, hr⟩; rw [h] at hr; cases hr
+
+/-- the step `value = tn.unsqueeze(value, int_dims)` of `_setitem` (tensor.py:1633-1634), taken through the model of
+    `tn.unsqueeze` (tools.py:37-53), is the indexing `value[…, None, …]` with `None` at the integer positions of the key
+    that `Tensor.setitem` performs -/
+theorem setitem_unsqueeze_tools (v : Tensor R) (sels : List Sel)
+    (hvl : v.length = (selShape sels).length) :
+    v.unsqueeze ((asgi_intDims sels).map Int.ofNat) = sqops_wrap (v.getitem (unsqueezeKey sels)) := by
+  have hM : v.length + ((asgi_intDims sels).map Int.ofNat).length = sels.length := by
+    rw [List.length_map, hvl]; exact asgi_intDims_length sels
+  have hm := sqops_mapM_nat sels.length (asgi_intDims sels) (asgi_intDims_lt sels)
+  unfold Tensor.unsqueeze
+  simp only [hM, hm, sqops_uqKey_eq, asgi_mark, ← asgi_unsqueezeKey]
+
+/-! ### the hypotheses are satisfiable -/
+section nonvacuous
+/-- a 2-mode tensor of shape (2, 3) with a Tucker factor, and a 1-mode value of shape (2) -/
+def exA : Tensor ℚ :=
+  [ { core := .tt 1 2 2 (fun _ j b => (j : ℚ) + b + 1), U := Option.none },
+    { core := .tt 2 2 1 (fun a j _ => (a : ℚ) - j), U := some { rows := 3, cols := 2, f := fun i j => (i : ℚ) + 2 * j } } ]
+def exV : Tensor ℚ := [ { core := .cp 2 2 (fun j a => (j : ℚ) * 3 - a), U := Option.none } ]
+theorem exA_wf : exA.WF := ⟨rfl, trivial, rfl, rfl, trivial⟩
+theorem exV_wf : exV.WF := ⟨rfl, trivial, trivial⟩
+def exSels : List Sel := [⟨0, 1, 2, false⟩, ⟨2, 1, 1, true⟩]
+
+/-- `exA[:, -1] = exV` -/
+example := setitem_tensor_ints exA exV exA_wf exV_wf [sliceAll, .int (-1)] [sliceAll, .int (-1)] [.slice 0 1 2, .int 2] exSels
+  rfl rfl rfl rfl rfl
+example := setitem_sels_length exA [sliceAll, .int (-1)] [sliceAll, .int (-1)] [.slice 0 1 2, .int 2] exSels rfl rfl rfl
+example := (setitem_tensor_error_iff exA exV exA_wf exV_wf [sliceAll, .int (-1)] [sliceAll, .int (-1)] [.slice 0 1 2, .int 2] exSels
+  rfl rfl rfl).1
+/-- `exA[0, :] = exV` raises: the selected shape is (3), the value has shape (2) -/
+example : exA.setitem [.int 0] (.tensor exV) = .error .lenMismatch :=
+  (setitem_tensor_error_iff exA exV exA_wf exV_wf [.int 0] [.int 0, sliceAll] [.int 0, .slice 0 1 3]
+    [⟨0, 1, 1, true⟩, ⟨0, 1, 3, false⟩] rfl rfl rfl).2 (by decide)
+example := setitem_dense_error_iff exA exA_wf [.int 0] [.int 0, sliceAll] [.int 0, .slice 0 1 3]
+    [⟨0, 1, 1, true⟩, ⟨0, 1, 3, false⟩] [3] (fun _ => 1) rfl rfl rfl
+example := setitem_unsqueeze_tools exV exSels rfl
+end nonvacuous
 
 end TN.C11
